@@ -130,9 +130,6 @@ Fixpoint store_eqb (a b : store) : bool :=
 Definition store_norm (st : store) : store := filter (fun kv => negb (Z.eqb (snd kv) 0)) st.
 Definition store_equiv (a b : store) : bool := store_eqb (store_norm a) (store_norm b).
 
-Definition role_eqb (a b : role) : bool :=
-  match a, b with RPre, RPre | RPost, RPost | RInv, RInv => true | _, _ => false end.
-
 Definition event_eqb (a b : event) : bool :=
   match a, b with
   | EvCond r c kw st, EvCond r' c' kw' st' => role_eqb r r' && Z.eqb c c' && kw_eqb kw kw' && store_equiv st st'
